@@ -36,14 +36,26 @@ def main():
     demo = os.path.join(seed, "demo.py")
     meta = {"id": sid, "breaks_property": target, "worktree": wt, "ran": {}}
     sh(["git", "checkout", "--", "."], wt)
-    rc0, out0 = sh([PY, demo], wt)
+    denv = dict(os.environ, PYTHONPATH=wt)
+    # baseline at HEAD in this worktree (it holds compiled modules, so more
+    # test modules import than in /repo: the reference is "the same set")
+    cache = os.path.join(wt, ".baseline_passed")
+    if os.path.exists(cache):
+        base_passed = int(open(cache).read())
+    else:
+        rcb, outb = sh([PY, "-m", "pytest", "-q", "-p", "no:cacheprovider", "--timeout=900", "--continue-on-collection-errors"], wt)
+        mb = re.search(r"(\d+) passed", outb)
+        base_passed = int(mb.group(1)) if mb else -1
+        open(cache, "w").write(str(base_passed))
+    meta["baseline_passed_at_head"] = base_passed
+    rc0, out0 = sh([PY, demo], wt, env=denv)
     meta["demo_at_head_exit"] = rc0
     rc, out = sh(["git", "apply", patch], wt)
     if rc != 0:
         print("patch does not apply:", out)
         return 2
     try:
-        rc1, out1 = sh([PY, demo], wt)
+        rc1, out1 = sh([PY, demo], wt, env=denv)
         meta["demo_with_change_exit"] = rc1
         meta["demo_with_change_tail"] = out1[-600:]
         rct, outt = sh([PY, "-m", "pytest", "-q", "-p", "no:cacheprovider", "--timeout=900", "--continue-on-collection-errors"], wt)
@@ -58,7 +70,7 @@ def main():
             print("  %s exit=%d %s" % (p, rcp, sigs[:3]), flush=True)
     finally:
         sh(["git", "checkout", "--", "."], wt)
-    meta["confirmed"] = bool(rc0 == 0 and meta.get("demo_with_change_exit", 0) != 0 and meta.get("baseline_passed_with_change") == 46)
+    meta["confirmed"] = bool(rc0 == 0 and meta.get("demo_with_change_exit", 0) != 0 and meta.get("baseline_passed_with_change") == base_passed and base_passed >= 46)
     meta["detected_by"] = [p for p, r in meta["ran"].items() if r["exit"] == 1]
     meta["harness_errors"] = [p for p, r in meta["ran"].items() if r["exit"] not in (0, 1)]
     dest = os.path.join(ROOT, "seeded", sid)
@@ -78,7 +90,7 @@ def main():
     for f in os.listdir(rdir):
         if f.endswith(".json"):
             shutil.move(os.path.join(rdir, f), os.path.join(keep, f))
-    print(json.dumps({k: meta[k] for k in ("id", "confirmed", "detected_by", "harness_errors", "demo_at_head_exit", "demo_with_change_exit", "baseline_passed_with_change")}))
+    print(json.dumps({k: meta[k] for k in ("id", "confirmed", "detected_by", "harness_errors", "demo_at_head_exit", "demo_with_change_exit", "baseline_passed_at_head", "baseline_passed_with_change")}))
     return 0
 
 
